@@ -7,6 +7,7 @@ KinModel/C13Params.lean (parameter defaults per location).  Helper lemmas: KinMo
 import KinModel.Lemmas.C13Stream
 import KinModel.Lemmas.C13Body
 import KinModel.Lemmas.C13Params
+import KinModel.Lemmas.C13Media
 namespace KinModel.C13
 open Stream
 
@@ -20,14 +21,31 @@ theorem sec_body_readable (f : Bool) (r : Req) (qs : List (List Scheme)) (data :
   obtain ⟨⟨hb, hg⟩, _, hs⟩ := secPhase_coherent f r qs data h
   exact ⟨⟨by simp [readAll, hb], hg⟩, hs⟩
 
-/-- **body_readable_after.** After ValidateRequest returns — accepted or not, fail-first or multi-error, security
-failing or not, body validated or excluded — the next handler reads the body in full: the original bytes, or the
-re-encoded body when defaults were set; GetBody rewinds to the same bytes. -/
-theorem body_readable_after (c : Cfg) (outcome : Bytes → BodyOutcome) (r : Req) (data : Bytes)
+/-- **body_readable_after (first read).** After ValidateRequest returns — accepted or not, fail-first or multi-error,
+security failing or not, body validated or excluded, re-encoding possible or not — the next handler reads the body in
+full: the original bytes, or the re-encoded body when defaults were set.  Full strength. -/
+theorem body_first_read_after (c : Cfg) (outcome : Bytes → BodyOutcome) (r : Req) (data : Bytes)
     (h : Coherent r data) :
+    readAll (validateStream c outcome r).1 = expectedAfter c outcome r data := by
+  simp [readAll, (validateStream_coherent c outcome r data h).1]
+
+/-- **body_readable_after (and rewindable), partial.**  Full statement: …and GetBody rewinds to the same bytes
+(`Readable`).  It fails where re-encoding fails (`rewriteFails`: class NoBodyEncoder, witness below); everywhere else: -/
+theorem body_readable_after_partial (c : Cfg) (outcome : Bytes → BodyOutcome) (r : Req) (data : Bytes)
+    (h : Coherent r data) (hnf : outcome data ≠ .rewriteFails) :
     Readable (validateStream c outcome r).1 (expectedAfter c outcome r data) := by
-  obtain ⟨⟨hb, hg⟩, _⟩ := validateStream_coherent c outcome r data h
-  exact ⟨by simp [readAll, hb], hg⟩
+  obtain ⟨hb, hg, _⟩ := validateStream_coherent c outcome r data h
+  exact ⟨by simp [readAll, hb], hg hnf⟩
+
+/-- F-C13-8, second face: when the rewrite fails for want of an encoder, the request is rejected AND a GetBody that
+    validation itself installed (server-side request) now rewinds to nothing: the body can be read once, a second
+    validation (or any retry) finds it empty -/
+theorem witness_rewrite_failure_breaks_getBody :
+    let r : Req := { body := some [1, 2], getBody := .none, contentLength := 2 }
+    let c : Cfg := { hasAuthFunc := true, reqs := [], hasBodySpec := true, required := true, multi := false, paramsOK := true }
+    let r1 := (validateStream c (fun _ => .rewriteFails) r).1
+    readAll r1 = [1, 2] ∧ r1.getBody = .ok [] ∧
+    readAll (validateStream c (fun _ => .rewriteFails) r1).1 = [] := by decide
 
 /-- The only way the readable bytes differ from the received ones is the default rewrite of an accepted body. -/
 theorem body_changes_only_by_rewrite (c : Cfg) (outcome : Bytes → BodyOutcome) (r : Req) (data : Bytes) :
@@ -42,30 +60,32 @@ theorem body_changes_only_by_rewrite (c : Cfg) (outcome : Bytes → BodyOutcome)
       cases ho : outcome (x :: xs) with
       | reject => exact Or.inl rfl
       | accept => exact Or.inl rfl
+      | rewriteFails => exact Or.inl rfl
       | rewrite nd => exact Or.inr ⟨nd, rfl, rfl⟩
 
 /-- **skip_defaults_identity (stream).** When nothing is rewritten (default-setting skipped: the value layer never
-answers `rewrite`), the body afterwards is byte-for-byte the one received. -/
+answers `rewrite` or `rewriteFails`), the body afterwards is byte-for-byte the one received, and rewindable. -/
 theorem skip_defaults_stream_identity (c : Cfg) (outcome : Bytes → BodyOutcome) (r : Req) (data : Bytes)
-    (h : Coherent r data) (hno : ∀ d nd, outcome d ≠ .rewrite nd) :
+    (h : Coherent r data) (hno : ∀ d nd, outcome d ≠ .rewrite nd) (hnf : ∀ d, outcome d ≠ .rewriteFails) :
     Readable (validateStream c outcome r).1 data := by
-  have hr := body_readable_after c outcome r data h
+  have hr := body_readable_after_partial c outcome r data h (hnf data)
   rcases body_changes_only_by_rewrite c outcome r data with he | ⟨nd, ho, _⟩
   · rwa [he] at hr
   · exact absurd ho (hno data nd)
 
-/-- ContentLength stays the length of what can be read, provided it was right on arrival. -/
+/-- ContentLength stays the length of what can be read, provided it was right on arrival.  Full strength. -/
 theorem contentLength_consistent (c : Cfg) (outcome : Bytes → BodyOutcome) (r : Req) (data : Bytes)
     (h : Coherent r data) (hcl : r.contentLength = data.length) :
     (validateStream c outcome r).1.contentLength = (readAll (validateStream c outcome r).1).length := by
-  obtain ⟨⟨hb, _⟩, hl⟩ := validateStream_coherent c outcome r data h
+  obtain ⟨hb, _, hl⟩ := validateStream_coherent c outcome r data h
   rw [hl hcl]; simp [readAll, hb]
 
-/-- A second validation finds a coherent request again (so all of the above holds for it as well). -/
-theorem second_validation_coherent (c : Cfg) (outcome : Bytes → BodyOutcome) (r : Req) (data : Bytes)
-    (h : Coherent r data) :
+/-- A second validation finds a coherent request again (so all of the above holds for it as well) — outside the
+rewrite-failure class. -/
+theorem second_validation_coherent_partial (c : Cfg) (outcome : Bytes → BodyOutcome) (r : Req) (data : Bytes)
+    (h : Coherent r data) (hnf : outcome data ≠ .rewriteFails) :
     Coherent (validateStream c outcome r).1 (expectedAfter c outcome r data) :=
-  (validateStream_coherent c outcome r data h).1
+  ⟨(validateStream_coherent c outcome r data h).1, (validateStream_coherent c outcome r data h).2.1 hnf⟩
 
 /-- A request without a body is not given one by the security phase. -/
 theorem sec_no_body_untouched (f : Bool) (r : Req) (qs : List (List Scheme)) (h : r.body = none) :
@@ -285,17 +305,19 @@ theorem param_present_unchanged (skip : Bool) (p : Param) (st : Store) (hp : p.l
 theorem param_other_keys_untouched (skip : Bool) (p : Param) (st : Store) (k : Key) (hk : k ≠ p.key) :
     (paramStep skip p st).1.get k = st.get k := paramStep_other skip p st k hk
 
-/-- **defaults appear with that default and nothing else changes (model = spec).**  For an accepted parameter the
-request afterwards is the spec's: unchanged if the parameter is present or has no default, else its key holds the
-default in the serialisation the parameter's own decoder reads.  Full strength: no exclusion class. -/
-theorem param_step_eq_spec (skip : Bool) (p : Param) (st : Store)
+/-- **defaults appear with that default and nothing else changes (model = spec, partial).**  Full statement: for an
+accepted parameter the request afterwards is the spec's — unchanged if the parameter is present or has no default, else
+its key holds the default in the serialisation the parameter's own decoder reads.  It fails for an absent parameter
+that is described by `content` (`ContentParamDefault`, F-C13-9, witness below); outside that class it holds. -/
+theorem param_step_eq_spec_partial (skip : Bool) (p : Param) (st : Store)
+    (hx : ContentParamDefault skip p st = false)
     (hok : (paramStep skip p st).2 = true) : (paramStep skip p st).1 = specStep skip p st := by
   unfold paramStep at hok ⊢
   rw [stepWith_fst]
   unfold specStep
   cases ha : applied skip p (st.get p.key) with
   | some d =>
-    obtain ⟨h1, h2, h3⟩ := applied_some_absent skip p _ d ha
+    obtain ⟨h1, h2, h3, _⟩ := applied_some_absent skip p _ d ha
     subst h2
     simp only [Bool.false_eq_true, ↓reduceIte, h3]
     by_cases hpath : p.loc = .path
@@ -316,19 +338,26 @@ theorem param_step_eq_spec (skip : Bool) (p : Param) (st : Store)
         cases hdf : p.dflt with
         | none => rfl
         | some d =>
-          -- absent, with a default, yet the block did not run: the decoder failed — then the parameter was rejected
-          exfalso
           subst hs
-          unfold applied at ha
-          unfold stepWith at hok
-          rw [hg] at ha hok
-          cases hd : decode p none with
-          | err => simp [hd] at hok
-          | val => have := decode_val_present p none hd; cases this
-          | nil found =>
-            cases found with
-            | true => have := decode_nil_true_present p none hd; cases this
-            | false => simp [hd, hdf] at ha
+          by_cases hpath : p.loc = .path
+          · have e2 : specEncode p d = [] := by rw [← encodeDefault_eq_spec]; exact encodeDefault_path p d hpath
+            simp [e2]
+          · exfalso
+            cases hc : p.content with
+            | true => simp [ContentParamDefault, hc, hdf, hg, hpath] at hx
+            | false =>
+              -- absent, with a default, yet the block did not run: the decoder failed — then the parameter was rejected
+              unfold applied at ha
+              unfold stepWith at hok
+              rw [hg] at ha hok
+              simp only [hc, Bool.false_eq_true, ↓reduceIte] at ha hok
+              cases hd : decode p none with
+              | err => simp [hd] at hok
+              | val => have := decode_val_present p none hd; cases this
+              | nil found =>
+                cases found with
+                | true => have := decode_nil_true_present p none hd; cases this
+                | false => simp [hd, hdf] at ha
 
 /-- **defaults_idempotent (one parameter).**  What a parameter's validation leaves behind is a fixed point: validating
 again writes nothing.  Full strength, whatever the verdicts. -/
@@ -361,7 +390,7 @@ theorem param_default_validates_partial (skip : Bool) (p : Param) (st : Store)
   | none => rw [ha] at e; simp only at e; rw [e]; exact hok
   | some d =>
     rw [ha] at e; simp only at e
-    obtain ⟨h1, h2, h3⟩ := applied_some_absent skip p _ d ha
+    obtain ⟨h1, h2, h3, h4⟩ := applied_some_absent skip p _ d ha
     subst h2
     by_cases hnil : encodeDefault p d = []
     · have : writeDefault p d st = st := by simp [writeDefault, hnil]
@@ -373,11 +402,12 @@ theorem param_default_validates_partial (skip : Bool) (p : Param) (st : Store)
       have hok' : (!(p.required && !false) && dfltValid p.ty d) = true := by
         unfold paramStep stepWith at hok
         rw [hg] at hok
-        simpa [h1, h3] using hok
+        simpa [h1, h3, h4] using hok
       simp only [Bool.not_false, Bool.and_true, Bool.and_eq_true, Bool.not_eq_true'] at hok'
       rw [e]
       unfold paramStep stepWith
       rw [writeDefault_get p d st hnil hg]
+      simp only [h4, Bool.false_eq_true, ↓reduceIte]
       have hallow : (p.ty = .untyped ∨ encodeDefault p d = [.empty]) → p.allowEmpty = true := by
         intro hcase
         cases hal : p.allowEmpty with
@@ -387,7 +417,7 @@ theorem param_default_validates_partial (skip : Bool) (p : Param) (st : Store)
           have : DefaultReadsAsEmpty false p st = true := by
             unfold DefaultReadsAsEmpty
             rw [hg, h1, h3]
-            rcases hcase with hc | hc <;> simp [hal, hnil, hc]
+            rcases hcase with hc | hc <;> simp [hal, hnil, hc, h4]
           rw [this] at hx; cases hx
       by_cases hty : p.ty = .untyped
       · -- a schema without type: found, no value; accepted only with allowEmptyValue
@@ -459,14 +489,23 @@ theorem params_second_validation_partial (skip multi : Bool) : ∀ (ps : List Pa
     rw [paramsPhase_cons]
     simp only [t1, t2, Bool.not_true, Bool.false_and, Bool.false_eq_true, ↓reduceIte, ih, Bool.and_self]
 
-/-- **All parameters: forwarded request = spec.**  The parameters of an accepted request are exactly the spec's: every absent parameter with a default carries it, nothing else changed.
-Full strength. -/
-theorem params_eq_spec (skip multi : Bool) : ∀ (ps : List Param) (st : Store),
+/-- **All parameters: forwarded request = spec (partial).**  The parameters of an accepted request are exactly the
+spec's — every absent parameter with a default carries it, nothing else changed — provided no parameter is in the
+class `ContentParamDefault`. -/
+theorem params_eq_spec_partial (skip multi : Bool) : ∀ (ps : List Param) (st : Store),
+    keysDistinct ps = true → (∀ p ∈ ps, ContentParamDefault skip p st = false) →
     (paramsPhase skip multi ps st).2 = true → (paramsPhase skip multi ps st).1 = specParams skip ps st
-  | [], st, _ => rfl
-  | p :: ps, st, hok => by
+  | [], st, _, _, _ => rfl
+  | p :: ps, st, hk, hx, hok => by
+    simp only [keysDistinct, Bool.and_eq_true, List.all_eq_true, bne_iff_ne, ne_eq] at hk
     obtain ⟨ok1, ok2, e⟩ := paramsPhase_ok_cons skip multi p ps st hok
-    rw [e, params_eq_spec skip multi ps _ ok2, param_step_eq_spec skip p st ok1]
+    have hx' : ∀ q ∈ ps, ContentParamDefault skip q (paramStep skip p st).1 = false := by
+      intro q hq
+      have := hx q (by simp [hq])
+      unfold ContentParamDefault at this ⊢
+      rw [paramStep_other skip p st q.key (hk.1 q hq)]; exact this
+    rw [e, params_eq_spec_partial skip multi ps _ hk.2 hx' ok2,
+      param_step_eq_spec_partial skip p st (hx p (by simp)) ok1]
     rfl
 
 /-- **The query cache is harmless.**  ValidateRequest decodes query parameters from `input.QueryParams` and writes
@@ -478,6 +517,14 @@ theorem query_cache_harmless (skip multi : Bool) (ps : List Param) (view st : St
     (paramsPhaseCached skip multi view ps st).2.2 = (paramsPhase skip multi ps st).2 ∧
     InSync (paramsPhaseCached skip multi view ps st).1 (paramsPhase skip multi ps st).1 :=
   paramsPhaseCached_sync skip multi ps view st h
+
+/-- F-C13-9 (new, open): a query parameter described by `content: application/json` with default 5 is absent: nothing
+    is written (the spec writes `n=5`); with a `schema` instead of `content` the default is written -/
+theorem witness_content_param_default :
+    let p : Param := { name := "n", loc := .query, ty := .sc .integer, dflt := some (.sc (.int 5)), required := false, allowEmpty := false, explode := true, content := true }
+    ContentParamDefault false p [] = true ∧ paramStep false p [] = ([], true) ∧
+    specStep false p [] = [((.query, "n"), [.lit (.int 5)])] ∧
+    paramStep false { p with content := false } [] = ([((.query, "n"), [.lit (.int 5)])], true) := by decide
 
 /-- F-C13-7 (open): a schema without `type` and default 7, parameter absent: `u=7` is written and the request accepted;
     the next validation finds `u` without a value and rejects it ("empty value is not allowed"); nothing is written
@@ -541,6 +588,285 @@ example :
       ([((.header, "X-P"), [.lit (.str "abc")]), ((.query, "q"), [.lit (.int 7)]), ((.cookie, "ck"), [.csv [.int 1, .int 2]])], true) := by
   decide
 
+/-! ### path-item parameters, overrides, excluded query parameters, allOf defaults -/
+
+/-- **Which parameters are validated.**  The parameters handed to ValidateParameter are exactly the effective ones:
+the operation's own, plus those of the path item that the operation does not redeclare (same location and name),
+query parameters only if ExcludeRequestQueryParams is off. -/
+theorem visited_iff_effective (exq : Bool) (pp op : List Param) (p : Param) :
+    p ∈ visited exq pp op ↔ Effective exq pp op p := by
+  unfold visited Effective overridden excluded
+  simp only [List.mem_append, List.mem_filter, Bool.and_eq_true, Bool.not_eq_true', Bool.and_eq_false_imp,
+    List.any_eq_false, beq_iff_eq, ne_eq]
+  constructor
+  · rintro (⟨hm, hx, ho⟩ | ⟨hm, hx⟩)
+    · refine ⟨Or.inr ⟨hm, fun q hq => by simpa using ho q hq⟩, ?_⟩
+      rintro ⟨he, hl⟩; simpa [hl] using hx he
+    · refine ⟨Or.inl hm, ?_⟩
+      rintro ⟨he, hl⟩; simpa [hl] using hx he
+  · rintro ⟨hm | ⟨hm, ho⟩, hx⟩
+    · exact Or.inr ⟨hm, fun he => by simpa using fun hl => hx ⟨he, hl⟩⟩
+    · exact Or.inl ⟨hm, fun he => by simpa using fun hl => hx ⟨he, hl⟩, fun q hq => by simpa using ho q hq⟩
+
+/-- **An overridden path-item parameter is never processed**: neither validated nor defaulted — only the operation's
+declaration governs. -/
+theorem overridden_path_param_ignored (exq : Bool) (pp op : List Param) (p : Param)
+    (hno : p ∉ op) (hov : overridden op p = true) : p ∉ visited exq pp op := by
+  rw [visited_iff_effective]
+  rintro ⟨hm | ⟨_, ho⟩, _⟩
+  · exact hno hm
+  · simp only [overridden, List.any_eq_true, beq_iff_eq] at hov
+    obtain ⟨q, hq, e⟩ := hov
+    exact ho q hq e
+
+/-- the validated parameters have pairwise distinct keys when each declaration list has -/
+theorem visited_keysDistinct (exq : Bool) (pp op : List Param) (h1 : keysDistinct pp = true) (h2 : keysDistinct op = true) :
+    keysDistinct (visited exq pp op) = true := by
+  unfold visited
+  apply keysDistinct_append _ _ (keysDistinct_filter _ pp h1) (keysDistinct_filter _ op h2)
+  intro a ha b hb
+  simp only [List.mem_filter, Bool.and_eq_true, Bool.not_eq_true'] at ha hb
+  simp only [overridden, List.any_eq_false, beq_iff_eq] at ha
+  exact ha.2.2 b hb.1
+
+/-- **The forwarded parameters of a whole request = spec, and a second validation changes nothing** — for path-item and
+operation parameters together, overrides and excluded query parameters included (model = spec outside
+`ContentParamDefault`; idempotence at full strength). -/
+theorem request_params_eq_spec_and_idempotent (skip multi exq : Bool) (pp op : List Param) (st : Store)
+    (h1 : keysDistinct pp = true) (h2 : keysDistinct op = true)
+    (hx : ∀ p ∈ visited exq pp op, ContentParamDefault skip p st = false)
+    (hok : (paramsPhase skip multi (visited exq pp op) st).2 = true) :
+    (paramsPhase skip multi (visited exq pp op) st).1 = specParams skip (visited exq pp op) st ∧
+    (paramsPhase skip multi (visited exq pp op) (paramsPhase skip multi (visited exq pp op) st).1).1 =
+      (paramsPhase skip multi (visited exq pp op) st).1 :=
+  ⟨params_eq_spec_partial skip multi _ st (visited_keysDistinct exq pp op h1 h2) hx hok,
+   params_idempotent skip multi _ st (visited_keysDistinct exq pp op h1 h2) hok⟩
+
+/-- With ExcludeRequestQueryParams no query parameter of the request is touched. -/
+theorem excluded_query_untouched (skip multi : Bool) (pp op : List Param) (st : Store) (n : String) :
+    (paramsPhase skip multi (visited true pp op) st).1.get (.query, n) = st.get (.query, n) := by
+  apply paramsPhase_other
+  intro p hp
+  have := ((visited_iff_effective true pp op p).mp hp).2
+  intro e
+  apply this
+  refine ⟨rfl, ?_⟩
+  have := congrArg Prod.fst e
+  simpa [Param.key] using this.symm
+
+/-- the default of a parameter schema: the first allOf member that has one wins over the schema's own -/
+theorem effDefault_first_allOf (own : Option PVal) (d : PVal) (pre r : List (Option PVal)) (h : ∀ x ∈ pre, x = none) :
+    effDefault own (pre ++ some d :: r) = some d := by
+  induction pre with
+  | nil => rfl
+  | cons x xs ih =>
+    have hx : x = none := h x (by simp)
+    subst hx
+    simpa [effDefault] using ih (fun y hy => h y (by simp [hy]))
+
+theorem effDefault_own (own : Option PVal) (l : List (Option PVal)) (h : ∀ x ∈ l, x = none) : effDefault own l = own := by
+  induction l with
+  | nil => rfl
+  | cons x xs ih =>
+    have hx : x = none := h x (by simp)
+    subst hx
+    simpa [effDefault] using ih (fun y hy => h y (by simp [hy]))
+
+/-- non-vacuity (the seeded-defect shape): the path item declares `q` with default 1, the operation redeclares `q`
+    with default 2 — only the operation's default is written -/
+example :
+    let pq : Param := { name := "q", loc := .query, ty := .sc .integer, dflt := some (.sc (.int 1)), required := false, allowEmpty := false, explode := true }
+    let oq : Param := { pq with dflt := some (.sc (.int 2)) }
+    let ph : Param := { name := "X-P", loc := .header, ty := .sc .integer, dflt := some (.sc (.int 3)), required := false, allowEmpty := false, explode := false }
+    visited false [pq, ph] [oq] = [ph, oq] ∧
+    paramsPhase false false (visited false [pq, ph] [oq]) [] =
+      ([((.header, "X-P"), [.lit (.int 3)]), ((.query, "q"), [.lit (.int 2)])], true) ∧
+    (paramsPhase false false (visited true [pq, ph] [oq]) []).1 = [((.header, "X-P"), [.lit (.int 3)])] := by decide
+
 end ParamPart
+
+/-! ## Part 4 — media type, decoder, encoder: the link between the value layer and the stream -/
+section MediaPart
+open Media Body
+
+/-- Content.Get: a declared media type that equals the header wins … -/
+theorem contentGet_exact (declared : List String) (raw : String) (h0 : raw ≠ "") (h : declared.contains raw = true) :
+    contentGet declared raw = some raw := by
+  have h' : raw ∈ declared := by simpa using h
+  unfold contentGet; simp [h0, h']
+
+/-- … otherwise the parameters of the header (`; charset=utf-8`) are ignored. -/
+theorem contentGet_parameters_ignored (declared : List String) (raw : String) (h0 : raw ≠ "")
+    (h1 : declared.contains raw = false) (h2 : declared.contains (base raw) = true) :
+    contentGet declared raw = some (base raw) := by
+  have h1' : raw ∉ declared := by simpa using h1
+  have h2' : base raw ∈ declared := by simpa using h2
+  unfold contentGet; simp [h0, h1', h2']
+
+/-- **The body phase = spec (partial).**  Full statement: `bodyOutcome = specOutcome` — an accepted body whose defaults
+were set is forwarded re-encoded.  It fails where the body was decoded by a decoder for which no encoder is registered
+(`NoBodyEncoder`, finding F-C13-8, witness below); outside that class it holds, for every Content-Type header (with or
+without parameters), every set of declared media types, every schema. -/
+theorem body_outcome_eq_spec_partial (c : Ctx) (declared : List (String × Option S)) (header : String)
+    (parse : Stream.Bytes → Option J) (text : Stream.Bytes → J) (enc : J → Stream.Bytes) (data : Stream.Bytes)
+    (hx : NoBodyEncoder c declared header parse text data = false) :
+    bodyOutcome c declared header parse text enc data = specOutcome c declared header parse text enc data := by
+  rw [bodyOutcome_eq, specOutcome_eq]
+  rw [noBodyEncoder_eq] at hx
+  split
+  · rfl
+  · cases hg : contentGet (declared.map (·.1)) header with
+    | none => rfl
+    | some key =>
+      simp only [hg] at hx ⊢
+      cases hs : schemaOf key declared with
+      | none => rfl
+      | some os =>
+        cases os with
+        | none => rfl
+        | some s =>
+          simp only [hs] at hx ⊢
+          cases hd : decoded header parse text data with
+          | none => rfl
+          | some v =>
+            simp only [hd] at hx ⊢
+            cases hv : visit c s v with
+            | none => rfl
+            | some v' =>
+              simp only [hv] at hx ⊢
+              unfold finish finishSpec
+              cases h1 : c.setDefaults <;> cases h2 : J.beq v' v <;> cases h3 : hasEncoder (base header) <;>
+                simp_all
+
+/-- Nothing is rewritten when default-setting is skipped. -/
+theorem rewrite_only_with_defaults_on (c : Ctx) (hc : c.setDefaults = false) (declared : List (String × Option S))
+    (header : String) (parse : Stream.Bytes → Option J) (text : Stream.Bytes → J) (enc : J → Stream.Bytes)
+    (data : Stream.Bytes) : (∀ nd, bodyOutcome c declared header parse text enc data ≠ .rewrite nd) ∧
+      bodyOutcome c declared header parse text enc data ≠ .rewriteFails := by
+  have key : bodyOutcome c declared header parse text enc data = .accept ∨
+      bodyOutcome c declared header parse text enc data = .reject := by
+    rw [bodyOutcome_eq]
+    split
+    · simp
+    · split
+      · simp
+      · split
+        · split
+          · simp
+          · split
+            · simp
+            · unfold finish; simp [hc]
+        · simp
+  rcases key with k | k <;> rw [k] <;> simp
+
+/-- **skip_defaults_identity (whole body path).**  With default-setting skipped, after ValidateRequest — any security
+outcome, any Content-Type, any declared content, any schema, valid or invalid body — the next handler reads exactly
+the bytes that were received. -/
+theorem skip_defaults_body_identity (cfg : Stream.Cfg) (c : Ctx) (hc : c.setDefaults = false)
+    (declared : List (String × Option S)) (header : String)
+    (parse : Stream.Bytes → Option J) (text : Stream.Bytes → J) (enc : J → Stream.Bytes)
+    (r : Stream.Req) (data : Stream.Bytes) (h : Stream.Coherent r data) :
+    Stream.Readable (Stream.validateStream cfg (bodyOutcome c declared header parse text enc) r).1 data :=
+  skip_defaults_stream_identity cfg _ r data h
+    (fun d nd => (rewrite_only_with_defaults_on c hc declared header parse text enc d).1 nd)
+    (fun d => (rewrite_only_with_defaults_on c hc declared header parse text enc d).2)
+
+/-- **What is forwarded.**  If the body is rewritten, the new bytes are the encoding of what the value layer makes of
+the decoded body under the schema of the media type that the header selects — and the header's media type is
+application/json. -/
+theorem rewrite_is_encoded_visit (c : Ctx) (declared : List (String × Option S)) (header : String)
+    (parse : Stream.Bytes → Option J) (text : Stream.Bytes → J) (enc : J → Stream.Bytes) (data nd : Stream.Bytes)
+    (h : bodyOutcome c declared header parse text enc data = .rewrite nd) :
+    ∃ key s v v', contentGet (declared.map (·.1)) header = some key ∧ schemaOf key declared = some (some s) ∧
+      decoded header parse text data = some v ∧ visit c s v = some v' ∧ nd = enc v' ∧ c.setDefaults = true ∧
+      base header = "application/json" := by
+  rw [bodyOutcome_eq] at h
+  split at h
+  · cases h
+  · cases hg : contentGet (declared.map (·.1)) header with
+    | none => simp [hg] at h
+    | some key =>
+      simp only [hg] at h
+      cases hs : schemaOf key declared with
+      | none => simp [hs] at h
+      | some os =>
+        cases os with
+        | none => simp [hs] at h
+        | some s =>
+          simp only [hs] at h
+          cases hd : decoded header parse text data with
+          | none => simp [hd] at h
+          | some v =>
+            simp only [hd] at h
+            cases hv : visit c s v with
+            | none => simp [hv] at h
+            | some v' =>
+              simp only [hv] at h
+              unfold finish at h
+              split at h
+              · rename_i hcond
+                split at h
+                · rename_i henc
+                  cases h
+                  simp only [Bool.and_eq_true] at hcond
+                  exact ⟨key, s, v, v', rfl, hs, rfl, hv, rfl, hcond.1, by simpa [hasEncoder] using henc⟩
+                · cases h
+              · cases h
+
+/-- The rewrite fails exactly in the class `NoBodyEncoder`. -/
+theorem rewriteFails_iff_noBodyEncoder (c : Ctx) (declared : List (String × Option S)) (header : String)
+    (parse : Stream.Bytes → Option J) (text : Stream.Bytes → J) (enc : J → Stream.Bytes) (data : Stream.Bytes) :
+    bodyOutcome c declared header parse text enc data = .rewriteFails ↔
+      NoBodyEncoder c declared header parse text data = true := by
+  rw [bodyOutcome_eq, noBodyEncoder_eq]
+  cases hd : declared with
+  | nil => simp [contentGet]
+  | cons e rest =>
+    simp only [List.isEmpty_cons, Bool.false_eq_true, ↓reduceIte]
+    cases hg : contentGet ((e :: rest).map (·.1)) header with
+    | none => simp
+    | some key =>
+      simp only
+      cases hs : schemaOf key (e :: rest) with
+      | none => simp
+      | some os =>
+        cases os with
+        | none => simp
+        | some s =>
+          simp only
+          cases hdv : decoded header parse text data with
+          | none => simp
+          | some v =>
+            simp only
+            cases hv : visit c s v with
+            | none => simp
+            | some v' =>
+              simp only
+              unfold finish
+              cases h1 : c.setDefaults <;> cases h2 : J.beq v' v <;> cases h3 : hasEncoder (base header) <;> simp
+
+/-- F-C13-8 (new): `Content-Type: application/problem+json`, a property with a default is absent: the valid request is
+    rejected ("rewriting failed") where the spec forwards it with the default -/
+theorem witness_no_body_encoder :
+    let s : S := .obj {} [] [("d", .leaf { dflt := some (.num 7) } .number)] true
+    let declared : List (String × Option S) := [("application/problem+json", some s)]
+    let parse : Stream.Bytes → Option J := fun _ => some (.obj [])
+    NoBodyEncoder {} declared "application/problem+json" parse (fun _ => .null) [0] = true ∧
+    bodyOutcome {} declared "application/problem+json" parse (fun _ => .null) (fun _ => [1]) [0] = .rewriteFails ∧
+    specOutcome {} declared "application/problem+json" parse (fun _ => .null) (fun _ => [1]) [0] = .rewrite [1] := by
+  decide
+
+/-- non-vacuity (the seeded-defect shape): `application/json; charset=utf-8` against a declared `application/json`:
+    the schema is found, the body decoded, the default set and the body re-encoded -/
+example :
+    let s : S := .obj {} [] [("d", .leaf { dflt := some (.num 7) } .number)] true
+    let declared : List (String × Option S) := [("application/json", some s)]
+    NoBodyEncoder {} declared "application/json; charset=utf-8" (fun _ => some (.obj [])) (fun _ => .null) [0] = false ∧
+    bodyOutcome {} declared "application/json; charset=utf-8" (fun _ => some (.obj [])) (fun _ => .null) (fun _ => [1]) [0] = .rewrite [1] ∧
+    bodyOutcome {} declared "application/json ; charset=utf-8" (fun _ => some (.obj [])) (fun _ => .null) (fun _ => [1]) [0] = .reject ∧
+    bodyOutcome {} [("application/*", some s)] "application/hal+json" (fun _ => some (.obj [("d", .num 1)])) (fun _ => .null) (fun _ => [1]) [0] = .accept := by
+  decide
+
+end MediaPart
 
 end KinModel.C13
